@@ -5,7 +5,7 @@ set -u
 id=$1; tier=${2:-quick}; shift; [ $# -gt 0 ] && shift
 cd "$(dirname "$0")"
 d=seeded/$id
-W=/tmp/evalrepo
+W=${EVALREPO:-/tmp/evalrepo}
 [ -d $W ] || git -C /repo worktree add -q --detach $W HEAD
 git -C $W checkout -q --detach $(git -C /repo rev-parse HEAD) && git -C $W checkout -- . && git -C $W clean -fdq
 git -C $W apply /verif/$d/patch.diff || { echo "patch does not apply"; exit 2; }
@@ -13,10 +13,10 @@ checks="$*"
 [ -n "$checks" ] || checks=$(python3 -c "import json;m=json.load(open('$d/meta.json'));print(' '.join(m.get('checks',[m['property']])))")
 res=0
 for c in $checks; do
-  VERIF_REPO=$W python3 verif.py run $c --tier $tier > work/seedalt_${id}_$c.log 2>&1; rc=$?
+  VERIF_REPO=$W python3 verif.py run $c --tier $tier > work/seedalt${VERIF_ALT_TAG:-}_${id}_$c.log 2>&1; rc=$?
   echo "== $id / $c (tier $tier): exit $rc"
-  grep -E "^(VIOLATION|  obligation|KNOWN-FINDING|INCONCLUSIVE)" work/seedalt_${id}_$c.log | cut -c1-260 | head -12
-  tail -1 work/seedalt_${id}_$c.log
+  grep -E "^(VIOLATION|  obligation|KNOWN-FINDING|INCONCLUSIVE)" work/seedalt${VERIF_ALT_TAG:-}_${id}_$c.log | cut -c1-260 | head -12
+  tail -1 work/seedalt${VERIF_ALT_TAG:-}_${id}_$c.log
   [ $rc -eq 1 ] && res=1
 done
 git -C $W checkout -- . ; git -C $W clean -fdq
